@@ -257,6 +257,49 @@ func init() {
 		}
 		out.Data["profiles"] = len(profs)
 		out.Data["profile_missing"] = missing
+		// histories: lints registered (through the public Register* API) after the registry has already been filtered by
+		// name must be listed AND accepted, whatever their kind; sources they introduce must be listed and parse
+		{
+			kinds := []string{"cert", "crl", "ocsp"}
+			seq := 0
+			for round := 0; round < 6; round++ {
+				// a by-name filter first (this is what a caching implementation would key on)
+				cur := g.Names()
+				if _, err := g.Filter(lint.FilterOptions{IncludeNames: []string{cur[rng.Intn(len(cur))]}}); err != nil {
+					out.Violate("history-filter-fails", "Filter by a listed name fails in a history of registrations: "+err.Error(), nil, nil, nil)
+				}
+				k := kinds[(round+rng.Intn(3))%3]
+				seq++
+				nm := fmt.Sprintf("e_verif_late_%s_%d", k, seq)
+				sc := &Script{Name: nm, Desc: "late registration", Src: "Community", Cfg: "none", App: "false", Exe: "res", ExeStatus: 3}
+				lg := []int{}
+				switch k {
+				case "cert":
+					lint.RegisterCertificateLint(sc.certLint(&lg))
+				case "crl":
+					lint.RegisterRevocationListLint(sc.crlLint(&lg))
+				case "ocsp":
+					lint.RegisterOcspResponseLint(sc.ocspLint(&lg))
+				}
+				if !contains(g.Names(), nm) {
+					out.Violate("late-lint-not-listed:"+k, "a "+k+" lint registered after filtering is not listed by Names()", nm, nil, nil)
+					continue
+				}
+				for _, opts := range []lint.FilterOptions{{IncludeNames: []string{nm}}, {ExcludeNames: []string{nm}}} {
+					if _, err := g.Filter(opts); err != nil {
+						out.Violate("late-lint-not-accepted:"+k, fmt.Sprintf("history: Filter by name; Register%sLint(%s); Filter(%s) -> %v although Names() lists it", k, nm, nm, err),
+							map[string]interface{}{"history": []string{"Filter(IncludeNames: one listed name)", "Register " + k + " lint " + nm, "Filter by " + nm}}, "accepted", err.Error())
+					}
+				}
+				out.Count("late_registrations", 1)
+			}
+			// every listed name (now including the late ones) is still accepted
+			for _, nm := range g.Names() {
+				if _, err := g.Filter(lint.FilterOptions{IncludeNames: []string{nm}}); err != nil {
+					out.Violate("include-name-after-history:"+nm, "listed name rejected after a history of registrations: "+err.Error(), nm, nil, nil)
+				}
+			}
+		}
 		// names and listed sources for Coq data
 		out.Data["names"] = names
 		return out.Emit()
